@@ -99,11 +99,6 @@ def check_common(rec, sc, r, where):
 
 
 # ------------------------------------------------------------------------------------------ (a) TRL
-def trl_model_inputs(sc):
-    """leakage-free T, R, L measurements the solver sees (python mirror of leak_removed only)"""
-    pass
-
-
 def part_trl(ctx, rec, exe, drv, ntrl, ntie):
     scs = []
     for typ in G.EIGHT:
